@@ -80,13 +80,16 @@ var dbgPrograms = map[string][2]string{ // state class -> (source, breakpoint li
 	"suspCall": {"x := 1\nfunc g(p) {\n    v := p\n    return v + 1\n}\nfunc f(q) {\n    return g(q) + 1\n}\nres := f(1)\nlast := 1\n", "3"},
 	"suspBusy": {"x := 1\nfunc g(p) {\n    v := p\n    return v + 1\n}\nfunc f(q) {\n    return g(q) + 1\n}\nres := f(1)\nlast := 1\n", "3"},
 	"suspErr":  {"x := 1\nfunc f() {\n    raise(\"E\", \"detail\", {1 : [2, {3 : 4}], \"k\" : 5})\n}\nf()\nlast := 1\n", ""},
-	"suspOdd": {"x := 1\nfn := func() {\n    return 1\n}\ninf := math.inf(1)\nnan := math.naN()\ndeep := [[[[[[[[[[[[1]]]]]]]]]]]]\nm := {\"a\" : 1, 2 : [fn]}\nm.self := m\nl := [1, [2]]\nl[1][0] := l\n" +
-		"func h() {\n    return 1\n}\nq := h()\ny := 2\nz := 3\n", "16"},
+	"suspOdd": {"x := 1\nfn := func() {\n    return 1\n}\ninf := math.inf(1)\nnan := math.naN()\ndeep := [[[[[[[[[[[[1]]]]]]]]]]]]\nm := {\"a\" : 1, 2 : [fn]}\nm.self := m\nl := [1, [2]]\nl[1][0] := l\nel := []\n" +
+		"func h() {\n    return 1\n}\nq := h()\ny := 2\nz := 3\n", "17"},
 	"finished": {"x := 1\n", ""},
 }
 
 func newDbgEnv(st string) (*dbgEnv, string) {
 	vs := scope.NewScope(scope.GlobalScope)
+	if st == "suspBusy" {
+		vs = scope.NewScope("root scope of a host which has its own name for it")
+	}
 	erp := interpreter.NewECALRuntimeProvider("prog", nil, util.NewMemoryLogger(100))
 	erp.Cron.Stop()
 	erp.Debugger = interpreter.NewECALDebugger(vs)
@@ -246,7 +249,7 @@ func (e *dbgEnv) close() {
 
 var dbgTokText = map[string]string{"num": "42", "tidx": "7777", "neg": "-1", "huge": "99999999999999999999", "float": "1.5", "word": "abc", "sl": "prog:2", "slx": "nosuch:3", "sln": "prog:-1",
 	"slh": "prog:99999999999999999999", "slw": "prog:x", "sle": "prog:", "cl": ":5", "sll": "a:1:2", "src": "prog", "srclong": "a-source-name-which-is-longer-than-every-breakpoint-key", "resume": "resume", "stepin": "stepin", "stepover": "stepover",
-	"stepout": "stepout", "STEPIN": "STEPIN", "var": "x", "novar": "zz", "badname": "1x", "expr": "1+2", "badexpr": "((", "true": "true", "false": "false"}
+	"stepout": "stepout", "STEPIN": "STEPIN", "var": "x", "novar": "zz", "badname": "1x", "expr": "1+2", "rterr": "1+\"x\"", "listidx": "el.0", "listneg": "el.-1", "badexpr": "((", "true": "true", "false": "false"}
 
 type dbgCase struct {
 	St    string   `json:"st"`
